@@ -1,6 +1,7 @@
 import Sif.Driver.Util
 import Sif.Model.Clp.Hooks
 import Sif.Spec.C01
+import Sif.Spec.C03
 /-
   Driver of the stateful family `amm`: the AMM messages and hooks on the model state.
 -/
@@ -101,6 +102,11 @@ def applyCfg (s : St) : List String → Option St
       some { s2 with pools := s2.pools.set (poolKey sym) { p with nLiab := nL, eLiab := eL, nCust := nC, eCust := eC } }
   | _ => none
 
+partial def parseChanges : List String → List (String × String × Nat × Nat) → Option (List (String × String × Nat × Nat))
+  | [], acc => some acc.reverse
+  | a :: d :: b :: af :: ts, acc => do parseChanges ts ((a, d, ← parseNat b, ← parseNat af) :: acc)
+  | _, _ => none
+
 def resR (r : R St) (s : St) : St × String :=
   match r with
   | .ok s' => (s', "ok")
@@ -132,6 +138,10 @@ def step (s : St) (toks : List String) : St × String :=
   | ["endblock"] => resHook (endBlocker s) s
   | ["epoch"] => resHook (afterEpochEnd s) s
   | ["obs"] => (s, dump s)
+  | "chk" :: "c03.settle" :: _tag :: signer :: sent :: recv :: amt :: mn :: y :: rest =>
+      (match parseNat amt, parseNat mn, parseNat y, parseChanges rest [] with
+       | some amt, some mn, some y, some ch => (s, toString (Sif.Spec.C03.settleOK signer sent recv amt mn y ch))
+       | _, _, _, _ => (s, "bad-op"))
   | "chk" :: pred :: _tag :: obs =>
       match parseDump obs with
       | none => (s, "bad-op")
